@@ -4,8 +4,11 @@ import importlib
 # property -> (module, attribute, level, quick runs, thorough runs)
 TABLE = {
     "C01": ("sim.scenarios.state", "C01", "exploration", 4000, 400000),
+    "C02": ("sim.scenarios.persist", "C02", "exploration", 3000, 300000),
+    "C03": ("sim.scenarios.persist", "C03", "exploration", 3000, 300000),
     "C06": ("sim.scenarios.state", "C06", "exploration", 4000, 400000),
     "C07": ("sim.scenarios.keyfile", "SCENARIO", "exploration", 20000, 1500000),
+    "C10": ("sim.scenarios.persist", "C10", "exploration", 3000, 300000),
     "C12": ("sim.scenarios.state", "C12", "exploration", 4000, 400000),
     "C15": ("sim.scenarios.state", "C15", "exploration", 4000, 400000),
 }
